@@ -37,6 +37,8 @@ class History(object):
         self.log = []
         self.n_ops = 0
         self.edit_counts = {}  # clone-independent count of in-place add/remove, for the drift allowance
+        self.witnesses = []  # [label, tree, digest] trees that later edits of *other* trees must not change
+        self.inter = []
 
     # ------------------------------------------------------------------ helpers
     def _dense(self, tree):
@@ -104,6 +106,9 @@ class History(object):
             if not remaining:
                 return {"op": "copy"}
             d["parent"] = self._pick(remaining + [None])
+            if self.rng.random() < 0.5:
+                d["witness_parent"] = self._pick(remaining + [None])
+                d["inplace"] = "relabel" if self.rng.random() < 0.5 else None
         elif kind == "subtree":
             child = self._pick(nodes)
             d["root"] = t.get_parent(child)
@@ -121,10 +126,14 @@ class History(object):
         return d
 
     # ------------------------------------------------------------------ apply a descriptor to a tree -> new tree
-    def apply(self, t, d):
+    def apply(self, t, d, inter=None):
+        """Apply descriptor d to tree t -> new tree.  ``inter`` (list) receives (label, tree, data idx the tree must
+        hold or None) for the intermediate states the samplers themselves pass through (after pruning, after grafting
+        and before the full update) and (label, tree, digest-before) witnesses of multi-graft aliasing."""
         from phyclone.tree import Tree
 
         kind = d["op"]
+        inter = inter if inter is not None else []
         if kind == "smc":
             dp = self.by_idx[d["dp"]]
             new = Tree.from_dict(t.to_dict()) if d.get("hop") else t.copy()
@@ -156,9 +165,22 @@ class History(object):
             pruned = t.copy()
             sub = pruned.get_subtree(d["node"])
             pruned.remove_subtree(sub)
+            inter.append(("pruned tree after remove_subtree", pruned.copy()))
+            inter.append(("extracted subtree", sub.copy()))
             new = pruned.copy()
             new.add_subtree(sub, parent=d["parent"])
+            inter.append(("grafted tree before the full update", new.copy()))
+            if d.get("witness_parent", "absent") != "absent":
+                # the sampler grafts the same subtree object into every candidate; a second candidate is kept as a
+                # witness: nothing done to the chosen candidate afterwards may change it
+                other = pruned.copy()
+                other.add_subtree(sub, parent=d["witness_parent"])
+                other.update()
+                self.witnesses.append(["second prune-regraft candidate grafted from the same subtree", other, None])
+                self.witnesses.append(["subtree object that was grafted", sub, None])
             new.update()
+            if d.get("inplace") == "relabel":
+                new.relabel_nodes()  # the run loop relabels the returned candidate in place
             return new
         if kind == "subtree":
             work = t.copy()  # the sampler mutates its input; the history keeps the old tree for the alias guard
@@ -166,6 +188,7 @@ class History(object):
             parent = work.get_parent(r)
             sub = work.get_subtree(r)
             work.remove_subtree(sub)
+            inter.append(("pruned tree after remove_subtree", work.copy()))
             for dp in work.outliers:
                 work.remove_data_point_from_outliers(dp)
                 sub.add_data_point_to_outliers(dp)
@@ -191,6 +214,7 @@ class History(object):
             new.add_subtree(S, parent=parent)
             for dp in S.outliers:
                 new.add_data_point_to_outliers(dp)
+            inter.append(("re-attached block before the full update", new.copy()))
             new.update()
             return new
         if kind == "relabel":
@@ -209,7 +233,8 @@ class History(object):
         d = self.choose()
         self.log.append(_plain(d))
         self.n_ops += 1
-        new = self.apply(self.tree, d)
+        self.inter = []
+        new = self.apply(self.tree, d, self.inter)
         if d["op"] == "smc":
             self.unassigned.remove(d["dp"])
         elif d["op"] == "drop":
